@@ -16,7 +16,7 @@ import (
 func policyInputs(r *an.Run) {
 	p := r.Prog
 	r.Obl("forwarded-add-packets-carry-the-policy-inputs", "MIRROR",
-		"the packet fields Switch.handlePacketAdd hands to CheckHtlcForward (incomingAmount, amount, incomingTimeout, outgoingTimeout, inboundFee) are set in every htlcPacket literal of channelLink.processRemoteAdds that names an outgoing channel, and the first-time and the replay literal set them from the same sources: the incoming add's amount and expiry, the outgoing add's amount, the forwarding info's outgoing CLTV and the link's own FwrdingPolicy.InboundFee",
+		"the packet fields Switch.handlePacketAdd hands to CheckHtlcForward (incomingAmount, amount, incomingTimeout, outgoingTimeout, inboundFee) are set in every htlcPacket literal of channelLink.processRemoteAdds that names an outgoing channel, and the first-time and the replay literal set them from the same sources: the incoming add's amount and expiry, the outgoing add's amount, the forwarding info's outgoing CLTV and the link's own inbound fee, read through the locked accessor channelLink.getInboundFee() (a direct read of cfg.FwrdingPolicy.InboundFee is not accepted: processRemoteAdds does not hold the link lock; what the accessor does: policy-is-read-under-the-link-lock-and-from-one-snapshot); amount is the Amount of the add the packet carries as htlc",
 		"a replayed add that arrives at the switch without the inbound fee (or with another amount or expiry) is checked against a different policy than the one that applied when it was first forwarded: an underpaying HTLC is accepted after a restart, or a correct one is rejected", 2,
 		func(o *an.Obl) {
 			// which packet fields feed CheckHtlcForward
@@ -60,7 +60,7 @@ func policyInputs(r *an.Run) {
 				"incomingAmount":  `^\$elem\(.*\)\.Amount$|^\*\$elem\(.*\)\.Amount$|\.Amount$`,
 				"incomingTimeout": `\.Expiry$`,
 				"outgoingTimeout": `\.OutgoingCLTV$`,
-				"inboundFee":      `^\$recv\.cfg\.FwrdingPolicy\.InboundFee$`,
+				"inboundFee":      `^\$recv\.getInboundFee\(\)$`,
 				"amount":          `\.Amount$`,
 			}
 			var lits []map[string]string
